@@ -520,65 +520,40 @@ def in_parts(ps, z):
     return any((a is None or a <= z) and (b is None or z <= b) for a, b in ps)
 
 
-def has_own(t):
-    k = t["k"]
-    return (k in ("int", "oct", "seqof", "setof")) and bool(t["parts"])
-
-
-def hole_excuse(ps, z):
-    return any(a is None for a, _ in ps) and any(b is None for _, b in ps) and not in_parts(ps, z)
-
-
-def size_hole_excuse(ps, n):
-    """a SIZE union whose hull is 0..MAX (r_size dropped as if it were SIZE(0..MAX)): same root cause"""
-    return len(ps) > 1 and any(a in (0, None) for a, _ in ps) and any(b is None for _, b in ps) and not in_parts(ps, n)
-
-
-def violated(t, v, env, slot=False, masked=False, path=(), out=None):
+def violated(t, v, env, slot=False, path=(), out=None):
     """list of (path, what, excuses) for every constraint of the type the value violates.
     excuses: the known findings that explain why the C does not see this violation."""
     if out is None:
         out = []
     k = t["k"]
-    ex = ["C08-sequence-early-return"] if masked else []
+    ex = []
     if k == "ref":
         tgt = env[t["ref"]]
-        return violated(base_of(tgt, env), v, env, tgt["k"] == "ref", masked, path, out)
+        return violated(base_of(tgt, env), v, env, tgt["k"] == "ref", path, out)
     if k == "int":
         ps = t["parts"]
         if ps and not in_parts(ps, v):
-            if hole_excuse(ps, v):
-                ex = ex + ["C08-min-max-union-unchecked"]
-            if list(ps) == [(0, 4294967295)] and v > 4294967295:
-                ex = ex + ["C08-ulong-shortcut"]
             out.append((path, "value %d not in (%s)" % (v, parts_text(ps)), ex))
         elif in_parts(t["exc"], v):
             out.append((path, "value %d excluded by EXCEPT" % v, ex + ["C08-except-ignored"]))
     elif k == "oct":
         if t["parts"] and not in_parts(t["parts"], len(v)):
-            if size_hole_excuse(t["parts"], len(v)):
-                ex = ex + ["C08-min-max-union-unchecked"]
             out.append((path, "length %d not in SIZE(%s)" % (len(v), parts_text(t["parts"])), ex))
     elif k in ("seqof", "setof"):
         n = len(v[1])
         if t["parts"] and not in_parts(t["parts"], n):
-            if size_hole_excuse(t["parts"], n):
-                ex = ex + ["C08-min-max-union-unchecked"]
             out.append((path, "count %d not in SIZE(%s)" % (n, parts_text(t["parts"])), ex + ([] if slot else ["C08-of-size-unchecked"])))
         for i, x in enumerate(v[1]):
-            violated(t["el"], x, env, True, masked, path + (i,), out)
+            violated(t["el"], x, env, True, path + (i,), out)
     elif k == "seq":
-        m = masked
         for i, ((_n, mt, opt), mv) in enumerate(zip(t["ms"], v[1])):
             if opt:
                 if mv[0] == "_":
                     continue
                 mv = mv[1]
-            violated(mt, mv, env, True, m, path + (i,), out)
-            if not has_own(mt):
-                m = True           # SEQUENCE_constraint returns after this member
+            violated(mt, mv, env, True, path + (i,), out)
     elif k == "choice":
-        violated(t["ms"][v[1]][1], v[2], env, True, masked, path + (v[1],), out)
+        violated(t["ms"][v[1]][1], v[2], env, True, path + (v[1],), out)
     return out
 
 
